@@ -7,6 +7,7 @@ input : tokens separated by one blank; token = `<ty>:<lineno>:<index>:<src>[:<va
         src / value = code points in decimal separated by `.` (may be empty);
         without `<value>` the value is computed by the model's token action under the live `Gen.C16Data.actCfg`.
 output: `<out> | <value;value;…> | wf=<0|1> closed=<0|1> verbatim=<0|1>`
+(other commands: `mw …` multi-word keyword scanner, `lay …` source-layout model, see below)
         out = code points of tokensToString; closed: out = render; verbatim: out = verbatim -/
 open MindsVerif.TokStr MindsVerif.MultiWord
 
@@ -45,8 +46,26 @@ def handleMW (name prev text : String) : String :=
       | none => "none"
     | _, _ => "unparsed"
 
+def decSeg (s : String) : Option Seg :=
+  match s.splitOn ":" with
+  | [ty, dl, gap, src] => do
+    let ty ← decTy ty; let dl ← dl.toNat?; let gap ← decStr gap; let src ← decStr src
+    some ⟨gap, dl, ty, src⟩
+  | _ => none
+
+/-- `lay <idx> <line> <seg> <seg> …`, seg = `<ty>:<dl>:<gap>:<src>` (code points).  The source-layout model:
+output `<lineno:index:value;…> | <storedSpec> | <tokensToString (place …)> | <sourceText>` under the live `actCfg` -/
+def handleLay (idx line : String) (segs : List String) : String :=
+  match idx.toNat?, line.toNat?, segs.mapM decSeg with
+  | some i, some l, some sg =>
+    let toks := place MindsVerif.Gen.C16Data.actCfg i l sg
+    ";".intercalate (toks.map (fun t => s!"{t.lineno}:{t.index}:{encStr t.value}")) ++ " | " ++
+      encStr (storedSpec sg) ++ " | " ++ encStr (tokensToString toks) ++ " | " ++ encStr (sourceText sg)
+  | _, _, _ => "bad-line"
+
 def handle (line : String) : String :=
   match (line.trimAscii.toString.splitOn " ") with
+  | "lay" :: idx :: ln :: segs => handleLay idx ln (segs.filter (· ≠ ""))
   | ["mw", name, prev, text] => handleMW name prev text
   | ["mw", name, prev] => handleMW name prev ""
   | _ =>
